@@ -366,6 +366,15 @@ pub mod avx2 {
             let s = self.0.split();
             [Fe(s[0]), Fe(s[1]), Fe(s[2]), Fe(s[3])]
         }
+        /// Build a vector directly from its 5 x 8 raw 32-bit lanes (no reduction).
+        pub fn from_raw(r: &[[u32; 8]; 5]) -> V {
+            use crate::backend::vector::packed_simd::u32x8;
+            let mut b = [u32x8::splat(0); 5];
+            for i in 0..5 {
+                b[i] = u32x8::new(r[i][0], r[i][1], r[i][2], r[i][3], r[i][4], r[i][5], r[i][6], r[i][7]);
+            }
+            V(FieldElement2625x4(b))
+        }
         /// The 5 x 8 raw 32-bit lanes.
         pub fn raw(&self) -> [[u32; 8]; 5] {
             let mut out = [[0u32; 8]; 5];
